@@ -694,6 +694,35 @@ theorem runAll_minv : ∀ (fuel : Nat) (s : State), MInv s → MInv (runAll fuel
       have hq' : MInv { s with runq := q } := h.frame (MFrame.of_eq rfl rfl rfl rfl rfl rfl)
       exact runAll_minv fuel _ (runTask_minv hq' i)
 
+theorem abortTask_minv {s : State} (h : MInv s) (i : Nat) : MInv (abortTask s i) := by
+  unfold abortTask
+  cases ht : taskOf s i with
+  | none => exact h
+  | some t =>
+    cases t with
+    | whenReady c tk hp =>
+      have h1 : MInv (removeTask s i) := removeTask_minv h i _ ht
+      exact h1.frame (MFrame.of_eq rfl rfl rfl rfl rfl rfl)
+    | delayed r =>
+      simp only []
+      have h3 : MInvE (some r) (removeTask s i) := removeTask_minv h i _ ht
+      cases hco : s.co r with
+      | none => exact h3.of_none_co hco
+      | some c =>
+        simp only []
+        have f4 := cancelIfOwner_mframe (removeTask s i) c
+        have h4 := h3.frame f4
+        have hr4 : (cancelIfOwner (removeTask s i) c).co r = some c := by rw [f4.co]; exact hco
+        exact h4.dropMarker r c _ hr4 (Or.inr rfl) (cancelIfOwner_free h3.nodup c) rfl
+
+theorem abortAll_minv : ∀ (fuel : Nat) (s : State), MInv s → MInv (abortAll fuel s)
+  | 0, _, h => h
+  | fuel + 1, s, h => by
+    simp only [abortAll]
+    split
+    · exact h.frame (MFrame.of_eq rfl rfl rfl rfl rfl rfl)
+    · exact abortAll_minv fuel _ (abortTask_minv h _)
+
 theorem step_minv (s : State) (op : Op) (h : MInv s) : MInv (step s op).1 := by
   cases op with
   | issue r k mux =>
@@ -774,6 +803,7 @@ theorem step_minv (s : State) (op : Op) (h : MInv s) : MInv (step s op).1 := by
   | run => exact runAll_minv _ s h
   | tick ms => exact h.frame (MFrame.of_eq rfl rfl rfl rfl rfl rfl)
   | mark => exact h
+  | shutdown => exact abortAll_minv _ s h
 
 theorem run_minv : ∀ (ops : List Op) (s : State), MInv s → MInv (run s ops).1
   | [], _, h => h
